@@ -231,6 +231,9 @@ func runCheck(id, only string, noEv bool) int {
 				if strings.HasPrefix(x, "decreases=") {
 					a.Decr = x[len("decreases="):]
 				}
+				if strings.HasPrefix(x, "modifies=") {
+					a.Modifies = strings.Split(x[len("modifies="):], ",")
+				}
 			}
 			if e.loops[fn.String()] == nil {
 				e.loops[fn.String()] = map[int]*LoopAnn{}
